@@ -705,7 +705,7 @@ func (fx *FnExec) execCallWith(st *State, in ssa.CallInstruction, c *ssa.CallCom
 	}
 	if inScope && len(callee.Blocks) > 0 {
 		if e.depth < e.w.opts.InlineDepth && !e.onStack(callee) {
-			fx.checkCallSiteAsserts(st, key, pos)
+			fx.checkCallSiteAsserts(st, key, pos, args, sig)
 			return fx.inline(st, callee, args, binds, pos)
 		}
 		o := e.addObl("bind", "needs-contract:"+shortFnKey(key), nil, st, "false", pos)
@@ -917,7 +917,7 @@ func (fx *FnExec) applyContract0(st *State, callee *ssa.Function, con *FnContrac
 		e.addObl("contract", fmt.Sprintf("call:%s:requires%s", shortFnKey(key), rq.labelStr()), fx.clauseTags(rq), st, g, pos)
 		e.assume(st, g)
 	}
-	fx.checkCallSiteAsserts(st, key, pos)
+	fx.checkCallSiteAsserts(st, key, pos, args, sig)
 	fx.checkHeldAtCall(st, con, env, key, pos)
 	// recursion: the callee's variant must be smaller than the caller's
 	if top := fx.topFx(); callee != nil && callee == top.fn {
@@ -1628,7 +1628,7 @@ func (e *Engine) assumeTrackedWF(st *State) {
 
 // checkCallSiteAsserts: `callsite <callee>#n asserts e` clauses of the enclosing top-level function: e is proved in the
 // caller's state immediately before the n-th call of callee (in program order of first execution).
-func (fx *FnExec) checkCallSiteAsserts(st *State, key string, pos token.Pos) {
+func (fx *FnExec) checkCallSiteAsserts(st *State, key string, pos token.Pos, args []*Val, sig *types.Signature) {
 	e := fx.e
 	top := fx.topFx()
 	if e.suppress > 0 {
@@ -1688,6 +1688,17 @@ func (fx *FnExec) checkCallSiteAsserts(st *State, key string, pos token.Pos) {
 			continue
 		}
 		env := top.specEnv(st, top.oldFor(st), nil)
+		// $arg0, $arg1, ...: the actual arguments of this call (receiver first)
+		if sig != nil {
+			off := 0
+			if sig.Recv() != nil && len(args) == sig.Params().Len()+1 {
+				env.vars["$arg0"] = &SV{V: args[0], T: sig.Recv().Type()}
+				off = 1
+			}
+			for i := 0; i < sig.Params().Len() && i+off < len(args); i++ {
+				env.vars[fmt.Sprintf("$arg%d", i+off)] = &SV{V: args[i+off], T: sig.Params().At(i).Type()}
+			}
+		}
 		for i, nt := range env.evalSplit(cs.C.Expr) {
 			e.addObl("contract", fmt.Sprintf("callsite:%s#%d%s%s", name, n, cs.C.labelStr(), partName(nt, i)), top.clauseTags(cs.C), st, nt.term, pos)
 		}
